@@ -220,4 +220,28 @@ SPECS = {
           "non-trivial = at least one session established; distinct = distinct transition/callback traces.",
   "assumptions": ENGINE_V + ["schedules are sampled (Go scheduler on 4 threads + seeded delays), not enumerated"],
  },
+
+ "C05": {
+  "level": "exploration",
+  "passes": [fsm("^TestC05$", name="fsm"), codec("^TestC05Decoders$", name="decoders")],
+  "rule": "pass fsm, family streams: for each (direction, state OpenSent/OpenConfirm/Established) a well-formed prefix then one hostile input of 10 kinds {random bytes; valid header with any of 256 types and random body up to 4077 bytes; 1-3 structural mutations of valid OPEN / UPDATE / NOTIFICATION / KEEPALIVE; "
+          "floods of 50-450 messages; half message then close/RST; syntactically valid OPENs with edge values (hold 0, AS 0, 245-byte capability, no parameters, id 0, 255-byte parameter); every interesting header length}, seeded segmentation; the plugin runs UpdateDecoder on whatever is delivered. "
+          "Then 6 virtual minutes pass (all timers the input may have armed run out) and the probes run: a bystander peer's Established session still delivers, a freshly added peer establishes, Close returns and nothing leaks. A panic kills the child process and is attributed to the case in flight by the driver. "
+          "family api: seeded concurrent programs (1-3 actors) over {AddPeer valid/invalid, DeletePeer, GetPeer, ListPeers, Serve(nil | listener), listener failure, Close, Close twice, Serve after Close, inbound connections, live and stale WriteUpdate}. "
+          "pass decoders: every exported decoder (UpdateDecoder with all typed attribute/prefix/MP/add-path decoders plugged in, each attribute decoder directly, DecodeAddPathTuples, MP helpers, UpdateNotificationFromErr, Notification.Error, and the message decoders through the export shim) "
+          "on the project's fuzz corpus seeds and 2000 mutations of each, the C16 input mix, and 65535..131072-byte slices with boundary length fields, each call under recover(). distinct = distinct (direction, state, kind, trace) / input length classes.",
+  "assumptions": ENGINE_V + ["only documented API use is generated (no nil plugin under Serve, no concurrent double Serve)"],
+ },
+
+ "C20": {
+  "level": "exploration",
+  "passes": [fsm("^TestC20$")],
+  "rule": "family grid: the full configuration grid {remote: invalid, IPv4, IPv6} x {local address: unset, IPv4, IPv6} x local AS, remote AS in {0,1,65535,65536,2^32-1} x hold {0,1,2,3,90,65535} x port {-1,0,1,179,65535,65536} x passive = 16200 AddPeer calls against the reference predicate, each rejected call followed by ListPeers "
+          "(no side effect), plus 8 router ids for NewServer (exhaustive, every run); family histories: concurrent histories of 2-6 clients x 4-8 operations over AddPeer/DeletePeer/GetPeer/ListPeers on 2-4 keys against a real Server that is idle / serving (refused dials, Gosched bursts at schedule points) / being closed concurrently; "
+          "call and return are stamped by one atomic logical clock at the client boundary; every AddPeer carries a unique version so reads identify the write they observed; the history is checked with porcupine against a sequential map model (ListPeers reads the whole map, so histories are not partitioned by key; checker timeout 20 s = inconclusive); "
+          "family behaviour: peer added while serving dials/accepts, deleted peer stops dialling and refuses inbound, peers added before Serve start at Serve, Serve after Close returns ErrServerClosed and starts nothing, duplicate AddPeer returns ErrPeerAlreadyExists and disturbs neither the stored configuration nor the running session. "
+          "distinct = distinct (server mode, history length, trace) and behaviour kinds.",
+  "exhaustive_note": "the configuration grid is enumerated completely on every run",
+  "assumptions": ENGINE_V + ["porcupine v1.3.0 is the linearizability checker; the sequential map model in checks/fsm/c20_test.go is the trusted base"],
+ },
 }
